@@ -482,7 +482,7 @@ def correspond(ctx, c16):
             def chk(ml, p=p, k=k):
                 m = c16.model_prob(ml)
                 if isinstance(m, (str, list)): return f'model {ml}'
-                return None if c06.close(m, c06.fr(p[k]), 16 * U, 1e-300) else f'acquisition probability {p[k]!r}, model {float(m)!r}'
+                return None if c06.close(m, c06.fr(p[k]), 2.0 ** -20, 1e-300) else f'acquisition probability {p[k]!r}, model {float(m)!r}'
             add(f"pool {tn(trans)} {tn(float(acq[k]))} {c16.tp_tokens(o)}", chk, dict(kind='pool', args=a))
     out = c16.drive(ctx, lines)
     for li, fn, data in checks:
